@@ -27,6 +27,7 @@ from mc import c13
 
 ID = 'C15'
 LEVEL = 'model_checking'
+FULL_IN_QUICK = True     # the complete space costs seconds: quick == thorough
 
 FORMATS = ('D8', 'D6', 'DT', 'RD8', 'TM')
 # ASC X12 control characters (basic set: BEL HT LF VT FF CR FS GS RS US; extended: SOH..ACK, DC1..ETB)
